@@ -764,9 +764,21 @@ def class_constant(repo: Repo, cls: str, name: str):
         simple = lambda n: isinstance(n, (ast.Constant, ast.Name)) or (isinstance(n, ast.UnaryOp) and isinstance(n.operand, ast.Constant)) \
             or (isinstance(n, ast.Attribute) and isinstance(n.value, ast.Name)) \
             or (isinstance(n, (ast.Tuple, ast.List)) and all(simple(x) for x in n.elts)) \
-            or (isinstance(n, ast.UnaryOp) and isinstance(n.op, ast.USub) and simple(n.operand))
+            or (isinstance(n, ast.UnaryOp) and isinstance(n.op, ast.USub) and simple(n.operand)) \
+            or (isinstance(n, ast.Dict) and len(n.keys) <= 8 and all(isinstance(k, ast.Constant) for k in n.keys)
+                and all(isinstance(x, (ast.Attribute, ast.Name, ast.Constant)) for x in n.values))
         if not simple(v):
             return None
+        if isinstance(v, ast.Dict):
+            # a dispatch table: nothing may add to it either
+            for mi in repo.modules.values():
+                for n in ast.walk(mi.tree):
+                    if isinstance(n, ast.Subscript) and isinstance(n.ctx, (ast.Store, ast.Del)) and isinstance(n.value, ast.Attribute) \
+                            and n.value.attr == name:
+                        return None
+                    if isinstance(n, ast.Call) and isinstance(n.func, ast.Attribute) and isinstance(n.func.value, ast.Attribute) \
+                            and n.func.value.attr == name and n.func.attr in ("update", "pop", "setdefault", "clear", "popitem"):
+                        return None
         for mi in repo.modules.values():
             for n in ast.walk(mi.tree):
                 if isinstance(n, ast.Attribute) and n.attr == name and isinstance(n.ctx, (ast.Store, ast.Del)):
@@ -2607,6 +2619,10 @@ class Walker:
             return ("tuple", tuple(self._ev_in_module(x, mi) for x in node.elts))
         if isinstance(node, ast.Name) and node.id in BUILTINS:
             return ("builtin", node.id)
+        if isinstance(node, ast.Dict):
+            return ("dict", tuple((self._ev_in_module(k, mi), self._ev_in_module(v, mi)) for k, v in zip(node.keys, node.values)))
+        if isinstance(node, ast.Name) and node.id in mi.functions:
+            return ("mod", f"{mi.name}.{node.id}")
         if isinstance(node, ast.Attribute) and isinstance(node.value, ast.Name):
             imps = getattr(mi, "imports", None) or {}
             target = imps.get(node.value.id)
@@ -2619,6 +2635,8 @@ class Walker:
                 return ("K", node.attr)
             if target in ("numpy",):
                 return ("mod", f"numpy.{node.attr}")
+            if target and target.startswith("opfython") and target in self.repo.modules:
+                return ("mod", f"{target}.{node.attr}")
         raise AnalysisError("class constant outside the literal fragment")
 
     @staticmethod
